@@ -174,6 +174,7 @@ let run (prop : string) (input : S.t) (observed : S.t) : S.t * string =
          | S.L [S.A "err-and-called"] -> "fails:resolver-invoked-although-the-request-could-not-be-coerced"
          | S.L [S.A "err-with-value"; _] -> "fails:unconverted-value-returned-with-the-error"
          | S.L (S.A "panic" :: _) -> "fails:panic"
+         | S.L (S.A "reuse-differs" :: S.A what :: _) -> "fails:" ^ what
          | S.L [S.A "ok"; w] ->
            let w = cv_of w in
            if dir = "in" then
